@@ -95,3 +95,19 @@ Proof.
   intros P s m now Hk Ha. destruct (unauthenticated_no_effect P s m now Hk Ha) as [H|[H _]]; rewrite H; reflexivity.
 Qed.
 Print Assumptions C13_only_authentic_traffic_postpones_dpd.
+
+(** The silent-peer bound (crash of the peer, cable pulled).  An ESTABLISHED IKE_SA whose liveness deadline has
+    passed at the sweep at time t probes at t; if nothing authentic arrives afterwards, then as soon as
+    MAX_RETRANSMISSIONS further sweeps have run later than t + 20 s the IKE_SA is DELETED - for every tick pattern
+    [times].  A sweep is one pass of the three timer loops of main_loop in their order.  Handler contract: the DPD
+    generator leaves one of the states the regenerated table says check_dead_peer_detection_timer can assign. *)
+Theorem C13_silent_peer_ends_the_ike_sa : forall (P : iface),
+  (forall i z, istate P (set_state P i z) = z) ->
+  (forall i, In (istate P (fst (gen_dpd P i))) assigns_check_dead_peer_detection_timer) ->
+  forall (s : sa P) (t : Z) (times : list Z),
+  state P s = ST_ESTABLISHED -> dpd_at P s < t ->
+  (forall t', In t' times -> t + RETRANSMISSION_DELAY * 10 < t') ->
+  (Z.to_nat MAX_RETRANSMISSIONS <= length times)%nat ->
+  state P (full_sweeps P (t :: times) s) = ST_DELETED.
+Proof. exact silent_peer_ends_ike_sa_gen. Qed.
+Print Assumptions C13_silent_peer_ends_the_ike_sa.
